@@ -28,6 +28,9 @@ type Ctx struct {
 	Hints      map[string]*FnVars
 	KnownFns   map[string]bool // in-repo function keys when the locks were written (inline.go)
 	loopVariants map[string]string
+	termination  bool
+	ConformNotes []string
+	termCyc      map[*ssa.Function]int
 	aliasCache map[string]map[string]string
 	aliasMu    sync.Mutex
 }
@@ -76,6 +79,7 @@ func newCtx(repo, verif string) (*Ctx, error) {
 	if err := c.buildSpecPrelude(); err != nil {
 		return nil, err
 	}
+	c.ConformNotes = c.attachConformance()
 	c.Frames = computeFrames(P, S)
 	return c, nil
 }
@@ -168,6 +172,8 @@ func (c *Ctx) genWith(fn *ssa.Function, prop string, forbid []Forbid, orderHeaps
 	g.aliasOf = g.aliasFn(fn)
 	g.knownFns = c.KnownFns
 	g.loopVariants = c.loopVariants
+	g.termination = c.termination
+	g.termCyc = c.termCyc
 	if err := g.Generate(); err != nil {
 		return nil, err
 	}
@@ -196,6 +202,8 @@ func main() {
 		os.Exit(cmdList(os.Args[2:]))
 	case "replay":
 		os.Exit(cmdReplay(os.Args[2:]))
+	case "loops":
+		os.Exit(cmdLoops(os.Args[2:]))
 	case "locals":
 		// record the position-based description of the variables of every function under contract
 		c, err := newCtx("/repo", "/verif")
